@@ -28,6 +28,8 @@ ROWS = [
 ]
 CLAUSES = [[], [1], [-1, 2], [3, -3], [2, 2, -1], [-3, -2, -1], [1, 2, 3]]
 LABELS = [None, 'y_{}', 'p_{{{},7}}', 'a^{}', 'plain{}', 'q{}_b^c']
+NOTES = ['plain', 'two\nlines', 'carriage\rreturn +1 x1 >= 1', 'form\x0cfeed', 'unit\x1cseparator', 'caf\u00e9', '* star', '']
+SINGLES = ['y', 'z', 'w', 'u', 'v']
 
 
 def strict_opb(text):
@@ -39,6 +41,8 @@ def strict_opb(text):
     lines = lines[:-1]
     if not lines:
         return None
+    if lines != text.splitlines():
+        return None          # a bare \r, \x0b, \x0c ... starts a new line for a text-mode file reader
     m0 = re.fullmatch(r'\* #variable= (\d+) #constraint= (\d+)', lines[0])
     if not m0:
         return None
@@ -121,10 +125,16 @@ def _latex_rows(text):
 
 def _parse_lit(term, names):
     neg = '\\overline' in term
+    if neg:
+        m = re.search(r'\\overline\{([^{}]*(?:\{[^{}]*\}[^{}]*)*)\}', term)
+        if not m or _norm(m.group(1)) == '':
+            return None                   # an overline over nothing does not show the polarity
     key = _norm(term.replace('\\overline', ''))
     cands = [v for v, nm in names.items() if _norm(nm) == key]
     if len(cands) != 1:
         return None
+    if neg and not _norm(names[cands[0]]).startswith(_norm(m.group(1))):
+        return None                       # the overlined part is the beginning of the variable's name
     return -cands[0] if neg else cands[0]
 
 
@@ -209,13 +219,26 @@ def _latex_ok(F, is_cnf, document, header):
     return True
 
 
-def _mk_opb(idx, li, extra):
-    F = OPB()
+def _decorate(F, idx, li, extra):
+    F.header['note'] = NOTES[(sum(idx) + li + extra) % len(NOTES)]
+    F.header['description'] = 'formula ' + NOTES[(len(idx) + li) % len(NOTES)]
+
+
+def _declare(F, li, extra):
     k = 3 + extra
-    if LABELS[li] is not None:
+    if li == 0 and extra:
+        for nm in SINGLES[:k]:
+            F.new_variable(nm)        # single-letter names without sub/superscript
+    elif LABELS[li] is not None:
         F.new_block(k, label=LABELS[li])
     else:
         F.update_variable_number(k)
+
+
+def _mk_opb(idx, li, extra):
+    F = OPB()
+    _declare(F, li, extra)
+    _decorate(F, idx, li, extra)
     for i in idx:
         r = ROWS[i]
         if r is None:
@@ -229,11 +252,8 @@ def _mk_opb(idx, li, extra):
 
 def _mk_cnf(idx, li, extra):
     F = CNF()
-    k = 3 + extra
-    if LABELS[li] is not None:
-        F.new_block(k, label=LABELS[li])
-    else:
-        F.update_variable_number(k)
+    _declare(F, li, extra)
+    _decorate(F, idx, li, extra)
     for i in idx:
         F.add_clause(list(CLAUSES[i]))
     return F
